@@ -209,9 +209,6 @@ class Recording(random.Random):
 
 
 def one(case, pl):
-    import numpy as np
-    from msdm.core.distributions.distributions import FiniteDistribution
-    from msdm.core.distributions import UniformDistribution
     universe = [dec(e) for e in case["universe"]]
     del RAWS[:]
     if case.get("shadow"):
@@ -222,6 +219,80 @@ def one(case, pl):
             sd.marginalize(lambda e: 0); sd.normalize()
         guarded(touch)
     d1, d2 = build(case["d1"]), build(case["d2"])
+    res = observe(case, d1, d2, universe)
+    if case.get("mutation"):
+        res["mutated"] = guarded(lambda: mutate_and_observe(case, d2, universe))
+    return res
+
+
+def mutate_and_observe(case, d2, universe):
+    """sample / query a distribution, UPDATE IT IN PLACE (dict item assignment, del, pop, update, clear + refill;
+    for a list-backed UniformDistribution: the caller's list), then observe everything again on the same object"""
+    from msdm.core.distributions.distributions import FiniteDistribution
+    from msdm.core.distributions import DictDistribution, UniformDistribution
+    mu = case["mutation"]
+    seed = int(case["seed"])
+    m = build(case["d1"])
+    def use():
+        list(m.items()); len(m); m.is_normalized()
+        for e in universe:
+            guarded(lambda: m.prob(e))
+        r = random.Random(seed)
+        for _ in range(3):
+            guarded(lambda: m.sample(rng=r))
+        guarded(lambda: FiniteDistribution.sample(m, rng=r, k=2))
+        guarded(lambda: m.marginalize(lambda e: 0)); guarded(lambda: m.normalize()); guarded(lambda: m & m)
+    use()
+    for op in mu["ops"]:
+        if op[0] == "set":
+            m[dec(op[1])] = fl(op[2])
+        elif op[0] == "del":
+            if dec(op[1]) in m:
+                del m[dec(op[1])]
+        elif op[0] == "pop":
+            m.pop(dec(op[1]), None)
+        elif op[0] == "update":
+            m.update({dec(e): fl(w) for e, w in op[1]})
+        elif op[0] == "clear_refill":
+            m.clear()
+            for e, w in op[1]:
+                m[dec(e)] = fl(w)
+        elif op[0] == "append":
+            m._support.append(dec(op[1]))
+        elif op[0] == "remove":
+            m._support.remove(dec(op[1]))
+        else:
+            raise ValueError("unknown mutation " + str(op[0]))
+        if mu.get("use_between"):
+            use()
+    del RAWS[:]         # the caller's containers were changed on purpose
+    case2 = dict(case)
+    case2.update(mu["overrides"])
+    out = {"result": observe(case2, m, d2, universe, derived=True)}
+    # an equal, freshly built distribution must sample the same way from an equally seeded generator
+    fresh = UniformDistribution(list(m._support)) if isinstance(m, UniformDistribution) else DictDistribution(dict(m.items()))
+    def seq(d):
+        r = random.Random(seed)
+        o = []
+        for j in range(8):
+            try:
+                o.append(enc(d.sample(rng=r)) if j % 4 else [enc(e) for e in _aslist(FiniteDistribution.sample(d, rng=r, k=3))])
+            except Exception as e:
+                o.append("error:" + type(e).__name__)
+        return o
+    out["fresh_same"] = seq(m) == seq(fresh)
+    out["fresh_items_same"] = items_of(m) == items_of(fresh)
+    return out
+
+
+def _aslist(r):
+    return r if isinstance(r, list) else [r]
+
+
+def observe(case, d1, d2, universe, derived=False):
+    import numpy as np
+    from msdm.core.distributions.distributions import FiniteDistribution
+    from msdm.core.distributions import UniformDistribution
     F = {dec(k): dec(v) for k, v in case["proj"]}
     def wv(v):
         if v[0] == "bool":
@@ -296,7 +367,7 @@ def one(case, pl):
         return {"event": enc(r), "used": rng.used}
     res["kdraw"] = guarded(kd)
     # events that collide must be refused by the constructors that promise distinct events
-    if case.get("neg"):
+    if case.get("neg") and not derived:
         e1, e2 = dec(case["neg"][0]), dec(case["neg"][1])
         res["neg"] = {"uniform": guarded(lambda: len(UniformDistribution([e1, e2]))),
                       "table": guarded(lambda: len(build({"kind": "table", "events": case["neg"], "weights": ["1/2", "1/2"]})))}
@@ -396,8 +467,8 @@ def one(case, pl):
         return True
     res["stale_ok"] = guarded(stale)
     # the same specification built again after all the unrelated constructions in between
-    res["rebuild_same"] = guarded(lambda: items_of(build(case["d1"])) == res["d1"]["items"]
-                                  and items_of(build(case["d2"])) == res["d2"]["items"])
+    res["rebuild_same"] = True if derived else guarded(
+        lambda: items_of(build(case["d1"])) == res["d1"]["items"] and items_of(build(case["d2"])) == res["d2"]["items"])
     res["inputs_unchanged"] = guarded(inputs_unchanged)
     return res
 
